@@ -1,4 +1,5 @@
 import HealSparse.Props.C10
+import HealSparse.Props.C10World
 #print axioms HS.C10.same_updateCore
 #print axioms HS.C10.same_updateRanges
 #print axioms HS.C10.same_queries
@@ -11,3 +12,17 @@ import HealSparse.Props.C10
 #print axioms HS.C10.same_upgrade
 #print axioms HS.C10.same_multiOp
 #print axioms HS.C10.history_interchangeable
+#print axioms HS.C10.noView_of
+#print axioms HS.C10.inplace_noView
+#print axioms HS.C10.same_stepArgs
+#print axioms HS.C10.same_step
+#print axioms HS.C10.viewTarget_same
+#print axioms HS.C10.diff_same
+#print axioms HS.C10.diffLine_same
+#print axioms HS.C10.runObs_world
+#print axioms HS.C10.same_history
+#print axioms HS.C10.sameSafe_same
+#print axioms HS.C10.same_routes
+#print axioms HS.C10.entSame_refl_of_good
+#print axioms HS.C10.bind_bind_sameW
+#print axioms HS.C10.upd_routes_sameW
